@@ -15,6 +15,7 @@ import itertools
 import json
 
 from lib import cmd, outcome, is_error, import_impl, lit_true, cnf_sat, pb_sat, assignments, Sym
+from fam_streams import fast_batch
 
 META = dict(
     technique='Coq theorems T1/T2/T3 per family about the builder-call IR (Prop_C01.v) + extracted-model differential check '
@@ -181,6 +182,8 @@ def compare_one(ctx, fam, p, reply, stream):
         return
     docvalid = fam.get('documented_valid', lambda q: True)(p)
     for cls_name, fclass in (('CNF', CNF), ('OPB', OPB)):
+        if p.get('only') and cls_name not in p['only']:
+            continue
         ctx.count(stream + '-' + cls_name, (name, key_of(p)), True, sample=dict(descr, cls=cls_name))
         got = outcome(fam['build'], p, fclass)
         site = fam['site']
@@ -335,10 +338,82 @@ def tally(ctx, fam, p):
             ctx.tally('%s %s (large)' % (name, k), '%d-%d' % (10 * (p[k] // 10), 10 * (p[k] // 10) + 9))
 
 
+def tally_stream(ctx, fam, p):
+    name = fam['name']
+    ctx.tally('family', name)
+    ctx.tally('stream ' + p['stream'], name)
+    for k, v in sorted(p.get('raw', {}).items()):
+        ctx.tally('shapes: flag passed as', repr(v))
+    if 'ops' in p:
+        ctx.tally('history: generator calls on the same object', sum(1 for o in p['ops'] if o[0] == 'gen'))
+        for o in p['ops']:
+            if o[0] != 'gen':
+                ctx.tally('history: ops', o[0])
+    if p['stream'] == 'thresholds':
+        bucket = lambda x: x if x <= 17 else '18-62' if x < 63 else x if x <= 65 else '66-126' if x < 127 else x if x <= 129 else \
+            '130-254' if x < 255 else x if x <= 258 else '259-999' if x < 1000 else '1000-1025' if x <= 1025 else '>= 65535' if x >= 65535 else '1026-65534'
+        for k in ('m', 'n', 'r', 'M', 'p', 'k', 'c', 'L', 'R'):
+            if k in p:
+                ctx.tally('thresholds: %s %s' % (name, k), bucket(p[k]))
+        if 'adj' in p:
+            ctx.tally('thresholds: %s largest left degree' % name, bucket(max([len(r) for r in p['adj']] or [0])))
+            rd = {}
+            for r in p['adj']:
+                for v in r:
+                    rd[v] = rd.get(v, 0) + 1
+            ctx.tally('thresholds: %s largest right degree' % name, bucket(max(list(rd.values()) or [0])))
+            ctx.tally('thresholds: %s largest right vertex with an edge' % name, bucket(max(list(rd) or [0])))
+        if 'edges' in p:
+            deg = {}
+            for u, v in p['edges']:
+                deg[u] = deg.get(u, 0) + 1
+                deg[v] = deg.get(v, 0) + 1
+            ctx.tally('thresholds: %s largest degree' % name, bucket(max(list(deg.values()) or [0])))
+            ctx.tally('thresholds: %s isolated vertices' % name, 'yes' if len(deg) < p['n'] else 'no')
+
+
+def run_streams(ctx, families, small_limit):
+    """the threshold / shape / history corpus (notes/LARGE_STREAMS.md), before the enumerated and random streams"""
+    import fam_c01
+    ctx.assumptions += [
+        'streams thresholds/shapes/history: a flag passed as a truthy/falsy non-bool is compared with the model on bool(flag); a graph '
+        'with a history (public API calls, the same object handed to the generator several times with edits in between) is compared '
+        'with the model on the edge set the harness computed by itself (fam_streams.simulate)',
+        'bipartite graphs with a side of 65535 vertices or more go through the driver commands fam_gphp_fast / fam_subsetcard_fast '
+        '(ocaml/glue_fam_c01.ml: the extracted gphp_ir / subsetcard_ir with Model.upto, quadratic, replaced by a native range); these '
+        'are compared with fam_gphp / fam_subsetcard on every run (stream fast-path)' +
+        ('' if ctx.tier == 'quick' else '; one instance with 65537 right vertices also goes through the extracted function itself')]
+    for fam in families:
+        if not fam.get('streams'):
+            continue
+        ps = fam['streams'](ctx.rng, ctx.tier)
+        replies = fast_batch([fam['request'](p) for p in ps], timeout=1500)
+        for p, rep in zip(ps, replies):
+            tally_stream(ctx, fam, p)
+            compare_one(ctx, fam, p, rep, p['stream'])
+            if p['stream'] in ('shapes', 'history'):
+                oracle_test(ctx, fam, p, small_limit)
+    byname = {f['name']: f for f in families}
+    jobs = [(byname[n], p) for (n, p) in fam_c01.fast_check_params(ctx.rng, ctx.tier) if n in byname]
+    if ctx.tier != 'quick' and 'gphp' in byname:
+        R = 65537
+        jobs.append((byname['gphp'], dict(L=3, R=R, adj=[[1, 65536], [65535, R], []], functional=True, onto=True)))
+    slow = fast_batch([fam['request'](p) for fam, p in jobs], timeout=1500)
+    fast = fast_batch([fam['request'](dict(p, fast=True)) for fam, p in jobs], timeout=1500)
+    for (fam, p), a, b in zip(jobs, slow, fast):
+        ctx.count('fast-path', (fam['name'], key_of(p)), True)
+        if a != b or is_error(a):
+            ctx.violation('correspondence', 'harness: driver command fam_%s_fast differs from the extracted function' % fam['name'],
+                          dict(input=dict(family=fam['name'], params=p)), False, site='harness', cls='fast-path')
+        elif p['R'] >= 65535:
+            compare_one(ctx, fam, dict(p, stream='thresholds', big=True), a, 'thresholds')
+
+
 def run_families(ctx, families, malformed=()):
     import_impl()
     quick = ctx.tier == 'quick'
     small_limit = 10 if quick else 12
+    run_streams(ctx, families, small_limit)
     for fam in families:
         ps = fam['params'](ctx.rng, ctx.tier)
         small = [p for p in ps if not p.get('big')]
@@ -348,12 +423,12 @@ def run_families(ctx, families, malformed=()):
         # small ones in chunks, big ones one request per process call (replies are large)
         for i in range(0, len(small), 300):
             chunk = small[i:i + 300]
-            replies = ctx.model.batch([fam['request'](p) for p in chunk])
+            replies = fast_batch([fam['request'](p) for p in chunk])
             for p, rep in zip(chunk, replies):
                 compare_one(ctx, fam, p, rep, 'small')
                 oracle_test(ctx, fam, p, small_limit)
         for p in big:
-            rep = ctx.model.batch([fam['request'](p)])[0]
+            rep = fast_batch([fam['request'](p)])[0]
             compare_one(ctx, fam, p, rep, 'large')
     byname = {f['name']: f for f in families}
     for (name, p, exc) in malformed:
